@@ -2,6 +2,7 @@
 import AsphaltModel.Context
 import AsphaltProofs.Lemmas.Assoc
 import AsphaltProofs.Lemmas.ExitWith
+import AsphaltProofs.Lemmas.GetNow
 
 namespace Asphalt
 namespace K2
@@ -152,6 +153,20 @@ theorem ctxGet_gen (cid : CtxId) (x : Ctx) (t : TaskId) (k : Key) (opt : Bool) (
             registeredVal (storeGenerated cid (bumpCall x f) f (.gen cid f.fid (countOf f.fid x.callCount))).1 k ::
               (storeGenerated cid (bumpCall x f) f (.gen cid f.fid (countOf f.fid x.callCount))).2) := by
   unfold ctxGet
+  simp only [hs, hmiss, hf, hnp, hung, callFactory_eq]
+  by_cases h : countOf f.fid x.callCount < f.failFirst <;> simp [h]
+
+/-- The same path taken by the lookup a teardown callback awaits. -/
+theorem ctxGetNow_gen (cid : CtxId) (x : Ctx) (k : Key) (opt : Bool) (f : Factory)
+    (hs : x.state.usable = true) (hmiss : alookup k x.res = none) (hf : alookup k x.fac = some f)
+    (hnp : x.pending.find? (fun p => p.fid = f.fid) = none)
+    (hung : (f.isAsync && f.gated) = false) :
+    ctxGetNow cid x k opt =
+      if countOf f.fid x.callCount < f.failFirst then (bumpCall x f, [.raisedExc (.exn 0)])
+      else ((storeGenerated cid (bumpCall x f) f (.gen cid f.fid (countOf f.fid x.callCount))).1,
+            registeredVal (storeGenerated cid (bumpCall x f) f (.gen cid f.fid (countOf f.fid x.callCount))).1 k ::
+              (storeGenerated cid (bumpCall x f) f (.gen cid f.fid (countOf f.fid x.callCount))).2) := by
+  unfold ctxGetNow
   simp only [hs, hmiss, hf, hnp, hung, callFactory_eq]
   by_cases h : countOf f.fid x.callCount < f.failFirst <;> simp [h]
 
@@ -468,11 +483,34 @@ theorem ctxCancelGet_frame (cid : CtxId) (x : Ctx) (lid : TaskId) (next : Option
   · exact Frame.trans (y := dropGen x p0.fid) ⟨rfl, rfl, rfl, rfl⟩ (resumeWaiters_frame _ _ _)
   · exact ⟨rfl, rfl, rfl, rfl⟩
 
+theorem registeredVal_ne_runtimeError (x : Ctx) (k : Key) (s : CState) :
+    registeredVal x k ≠ .runtimeError s := by
+  unfold registeredVal; split <;> simp
+
+/-- A lookup in a usable context (open or closing) is not refused for the state of the context. -/
+theorem ctxGet_usable_not_refused (cid : CtxId) (x : Ctx) (t : TaskId) (k : Key) (opt : Bool)
+    (hu : x.state.usable = true) (s : CState) : (ctxGet cid x t k opt).2 ≠ [.runtimeError s] := by
+  apply ctxGet_cases (fun r => r.2 ≠ [.runtimeError s])
+  · intro h; rw [hu] at h; cases h
+  · intros; simp
+  · intros; simp
+  · intros; simp
+  · intros; simp
+  · intros
+    intro h
+    exact registeredVal_ne_runtimeError _ _ _ (List.cons.inj h).1
+  · intros; cases opt <;> simp
+
+theorem ctxGetNow_frame (cid : CtxId) (x : Ctx) (k : Key) (opt : Bool) :
+    Frame x (ctxGetNow cid x k opt).1 :=
+  ctxGetNow_transfer (Frame x) cid x k opt (Frame.refl _) (fun t => ctxGet_frame cid x t k opt)
+
 theorem runBodyOp_frame (cid : CtxId) (cur : Option CtxId) (x : Ctx) (op : BodyOp) : Frame x (runBodyOp cid cur x op).1 := by
   cases op with
   | add => exact ctxAdd_frame _ _ _
   | addFactory => exact ctxAddFactory_frame _ _ _
   | getNowait => exact ctxGetNowait_frame _ _ _ _
+  | get => exact ctxGetNow_frame _ _ _ _
   | current => exact Frame.refl x
 
 theorem runTeardown_frame (cid : CtxId) (cur : Option CtxId) (be : BlockEnd) (st : List Cb) (x : Ctx) :
@@ -948,6 +986,37 @@ theorem storeGenerated_fields (cid : CtxId) (x : Ctx) (f : Factory) (v : Val) :
   simp only
   split <;> exact ⟨rfl, rfl, rfl, rfl, rfl⟩
 
+/-- A generation stores the object under every key of the factory that was free. -/
+theorem storeGenerated_lookup (cid : CtxId) (x : Ctx) (f : Factory) (v : Val) (ty : TypeId)
+    (hty : ty ∈ f.types) (hmiss : alookup ⟨ty, f.name⟩ x.res = none) :
+    ∃ cont, alookup ⟨ty, f.name⟩ (storeGenerated cid x f v).1.res = some cont ∧ cont.val = v := by
+  obtain ⟨_, _, _, _, e⟩ := storeGenerated_fields cid x f v
+  refine ⟨⟨v, f.types.filter fun t => !acontains ⟨t, f.name⟩ x.res, f.name, f.desc, true⟩, ?_, rfl⟩
+  rw [e, alookup_storeAll, if_pos]
+  refine ⟨rfl, List.mem_filter.mpr ⟨hty, ?_⟩⟩
+  simp [acontains, hmiss]
+
+/-- A first generation through the lookup awaited by a teardown callback: the answer starts with the new
+object, which is then what the context holds under the key; the lifecycle state is untouched. -/
+theorem ctxGetNow_generates (cid : CtxId) (x : Ctx) (ty : TypeId) (name : String) (opt : Bool) (f : Factory)
+    (hs : x.state.usable = true)
+    (hmiss : alookup ⟨ty, name⟩ x.res = none) (hf : alookup ⟨ty, name⟩ x.fac = some f)
+    (hname : f.name = name) (hty : ty ∈ f.types)
+    (hnp : x.pending.find? (fun p => p.fid = f.fid) = none) (hng : (f.isAsync && f.gated) = false)
+    (hok : f.failFirst ≤ countOf f.fid x.callCount) :
+    (ctxGetNow cid x ⟨ty, name⟩ opt).2.head? = some (.val (.gen cid f.fid (countOf f.fid x.callCount))) ∧
+    (ctxGetNow cid x ⟨ty, name⟩ opt).1.state = x.state ∧
+    ∃ cont, alookup ⟨ty, name⟩ (ctxGetNow cid x ⟨ty, name⟩ opt).1.res = some cont ∧
+      cont.val = .gen cid f.fid (countOf f.fid x.callCount) := by
+  subst hname
+  have hmiss' : alookup ⟨ty, f.name⟩ (bumpCall x f).res = none := hmiss
+  obtain ⟨cont, hc, hv⟩ := storeGenerated_lookup cid (bumpCall x f) f
+    (.gen cid f.fid (countOf f.fid x.callCount)) ty hty hmiss'
+  rw [ctxGetNow_gen cid x ⟨ty, f.name⟩ opt f hs hmiss hf hnp hng, if_neg (Nat.not_lt.mpr hok)]
+  refine ⟨?_, ?_, cont, hc, hv⟩
+  · simp only [registeredVal, hc, List.head?_cons, hv]
+  · exact ((bumpCall_frame x f).trans (storeGenerated_frame cid _ f _)).2.1
+
 theorem KInv.storeGenerated {x : Ctx} (h : KInv x) (cid : CtxId) (f : Factory) (v : Val) (k0 : Key)
     (hf : alookup k0 x.fac = some f) (h0 : countOf f.fid x.genCount = 0)
     (hp : ∀ p ∈ x.pending, p.fid ≠ f.fid) : KInv (storeGenerated cid x f v).1 := by
@@ -1215,12 +1284,17 @@ theorem KInv.ctxCancelGet {x : Ctx} (h : KInv x) (cid : CtxId) (lid : TaskId) (n
     obtain ⟨q0, hq0, rfl⟩ := hq
     exact h.pend q0 hq0
 
+theorem KInv.ctxGetNow {x : Ctx} (h : KInv x) (cid : CtxId) (k : Key) (opt : Bool) :
+    KInv (ctxGetNow cid x k opt).1 :=
+  ctxGetNow_transfer KInv cid x k opt h (fun t => h.ctxGet cid t k opt)
+
 theorem KInv.runBodyOp {x : Ctx} (h : KInv x) (cid : CtxId) (cur : Option CtxId) (op : BodyOp) :
     KInv (runBodyOp cid cur x op).1 := by
   cases op with
   | add => exact h.ctxAdd _ _
   | addFactory => exact h.ctxAddFactory _ _
   | getNowait => exact h.ctxGetNowait _ _ _
+  | get => exact h.ctxGetNow _ _ _
   | current => exact h
 
 theorem KInv.runTeardown {x : Ctx} (h : KInv x) (cid : CtxId) (cur : Option CtxId) (be : BlockEnd) (st : List Cb) :
